@@ -26,9 +26,11 @@ type hookEntry struct {
 
 type c19Event struct {
 	At   time.Duration `json:"at"`
-	Kind string        `json:"kind"` // notify | newstore | op
+	Kind string        `json:"kind"` // notify | newstore | op | dirchange
 	Op   *opSpec       `json:"op,omitempty"`
 	Dir  string        `json:"dir,omitempty"`
+	// dirchange: the hooks directory changes while the agent runs: add-exec | chmod-x | chmod+x | remove | dir-ww | dir-safe
+	Change string `json:"change,omitempty"`
 }
 
 type c19Case struct {
@@ -63,11 +65,17 @@ func genC19(t *rapid.T) c19Case {
 		hooksLimit + time.Nanosecond, hooksLimit + time.Millisecond, 7 * time.Second, 2*hooksLimit - time.Nanosecond, 2 * hooksLimit, 2*hooksLimit + time.Nanosecond, 12 * time.Second, 61 * time.Second}
 	at := time.Duration(rapid.SampledFrom([]int{0, 1, 1000}).Draw(t, "start")) * time.Millisecond
 	tag := 0
+	dynamic := !c.MidRound && rapid.IntRange(0, 2).Draw(t, "dynamic") == 0
 	for i, n := 0, rapid.IntRange(1, 10).Draw(t, "nevents"); i < n; i++ {
 		if i > 0 {
 			at += rapid.SampledFrom(deltas).Draw(t, "delta")
 		}
 		ev := c19Event{At: at, Kind: "notify"}
+		if dynamic && i > 0 && i < n-1 && rapid.IntRange(0, 3).Draw(t, "dirchange") == 0 {
+			ev.Kind, ev.Change = "dirchange", rapid.SampledFrom([]string{"add-exec", "chmod-x", "chmod+x", "remove", "dir-ww", "dir-safe"}).Draw(t, "change")
+			c.Events = append(c.Events, ev)
+			continue
+		}
 		if c.AgentLevel {
 			tag++
 			kind := rapid.SampledFrom([]string{"add", "update", "setadmin", "remove", "add", "update", "auth", "list"}).Draw(t, "opkind")
@@ -168,6 +176,61 @@ func runC19(c c19Case) string {
 		return fmt.Sprintf("VERIF-INFRA rate limit is %v, harness assumes %v", h.rateLimit, hooksLimit)
 	}
 	eligible := eligibleNames(c)
+	// the hooks directory may change while the agent runs (events of kind dirchange): eligibility is decided per round
+	entries := append([]hookEntry{}, c.Entries...)
+	ww, dynamic, nlate := c.WorldWritable, false, 0
+	alwaysEligible := append([]string{}, eligible...)
+	applyChange := func(change string) {
+		idx := func(kind string) int {
+			for i, e := range entries {
+				if e.Kind == kind {
+					return i
+				}
+			}
+			return -1
+		}
+		switch change {
+		case "add-exec":
+			nlate++
+			n := fmt.Sprintf("late%d-exec", nlate)
+			script := fmt.Sprintf("#!/bin/sh\necho \"$(basename \"$0\")|$#|$*|$WHAWTY_AUTH_STORE\" >> %s\n", logf)
+			if os.WriteFile(filepath.Join(hdir, n), []byte(script), 0o755) == nil {
+				entries = append(entries, hookEntry{Name: n, Kind: "exec"})
+			}
+		case "chmod-x":
+			if i := idx("exec"); i >= 0 && os.Chmod(filepath.Join(hdir, entries[i].Name), 0o644) == nil {
+				entries[i].Kind = "noexec"
+			}
+		case "chmod+x":
+			if i := idx("noexec"); i >= 0 && os.Chmod(filepath.Join(hdir, entries[i].Name), 0o755) == nil {
+				entries[i].Kind = "exec"
+			}
+		case "remove":
+			if i := idx("exec"); i >= 0 && os.Remove(filepath.Join(hdir, entries[i].Name)) == nil {
+				entries = append(entries[:i], entries[i+1:]...)
+			}
+		case "dir-ww":
+			if os.Chmod(hdir, 0o757) == nil {
+				ww = true
+			}
+		case "dir-safe":
+			if os.Chmod(hdir, 0o755) == nil {
+				ww = false
+			}
+		}
+		dynamic = true
+		eligible = eligibleNames(c19Case{Entries: entries, WorldWritable: ww})
+		var keep []string
+		for _, a := range alwaysEligible {
+			for _, b := range eligible {
+				if a == b {
+					keep = append(keep, a)
+				}
+			}
+		}
+		alwaysEligible = keep
+		vlib.Class("hooks-dir-changed-at-run-time:" + change)
+	}
 	// instants to observe: every event time and event time + limit, each -1ns / +0 / +1ns
 	inst := map[time.Duration]bool{}
 	for _, ev := range c.Events {
@@ -213,7 +276,7 @@ func runC19(c c19Case) string {
 			return ""
 		}
 		if len(eligible) == 0 {
-			return fmt.Sprintf("VIOLATION C19: hooks were executed although no entry is eligible (world-writable=%v): %v", c.WorldWritable, newl)
+			return fmt.Sprintf("VIOLATION C19: hooks were executed although no entry is eligible (world-writable=%v): %v", ww, newl)
 		}
 		// group into rounds: every round must run each eligible hook exactly once
 		counts := map[string]int{}
@@ -303,6 +366,12 @@ func runC19(c c19Case) string {
 						vlib.Class("midround:first-hook-never-logged")
 					}
 				}
+			case "dirchange":
+				// everything started so far is judged against the directory as it was
+				if msg := readLog(now); msg != "" {
+					return msg
+				}
+				applyChange(ev.Change)
 			case "newstore":
 				h.NewStore <- ev.Dir
 				curStore, storeChangedAt = ev.Dir, now
@@ -337,8 +406,8 @@ func runC19(c c19Case) string {
 			return msg
 		}
 	}
-	// log-order cover: after the marker of every change that counts, every eligible hook has been started again
-	if len(eligible) > 0 {
+	// log-order cover: after the marker of every change that counts, every hook that was eligible throughout has been started again
+	if eligible = alwaysEligible; len(eligible) > 0 {
 		data, _ := os.ReadFile(logf)
 		lines := strings.Split(strings.TrimSpace(string(data)), "\n")
 		for k := range markCounts {
@@ -363,6 +432,9 @@ func runC19(c c19Case) string {
 	// invariants over the round log
 	if len(eligible) > 0 {
 		for _, n := range notifs {
+			if dynamic {
+				break // with a changing directory a change may legitimately be followed by a round that runs nothing
+			}
 			covered := false
 			for _, r := range rounds {
 				if r.at >= n {
